@@ -64,6 +64,8 @@ WANTED = [
     ("src/buint/checked.rs", None, "checked_ilog", "checked_ilog"),
     ("src/buint/checked.rs", None, "checked_next_power_of_two", "checked_next_power_of_two"),
     ("src/buint/checked.rs", None, "checked_next_multiple_of", "checked_next_multiple_of"),
+    ("src/buint/cast.rs", None, "cast_up", "cast_up"),
+    ("src/buint/cast.rs", None, "cast_down", "cast_down"),
 ]
 
 # `Self` in the files of src/bint/ is $BInt<N> (a struct around `bits: $BUint<N>`)
@@ -102,6 +104,7 @@ GROUPS = {
     "C06": ["bitand", "bitor", "bitxor", "not_", "eq_", "cmp", "count_ones", "count_zeros", "leading_zeros", "trailing_zeros",
             "leading_ones", "trailing_ones", "is_power_of_two", "is_zero", "is_one", "from_digit", "digits", "from_digits", "bit",
             "set_bit", "power_of_two", "bits", "checked_next_power_of_two"],
+    "C09": ["cast_up", "cast_down"],
     "C08": ["overflowing_pow", "checked_pow", "wrapping_pow", "checked_ilog2", "iilog", "checked_ilog10", "checked_ilog"],
     "C03": ["div_rem_digit", "last_digit_index", "checked_next_multiple_of"],
 }
@@ -213,9 +216,11 @@ class LP(_dig.P):
                 ts.append(self.type_())
             self.eat(")")
             return tuple(ts)
-        if v == "[":                                   # [$Digit; N]
-            self.eat("["), self.eat("$Digit"), self.eat(";"), self.eat("N"), self.eat("]")
-            return "digits"
+        if v == "[":                                   # [$Digit; N] / [$Digit; M]
+            self.eat("["), self.eat("$Digit"), self.eat(";")
+            z = self.ident()
+            self.eat("]")
+            return "digits" if z == "N" else Arr("digits", z)
         name = self.ident()
         if name in ("usize", "bool", "ExpType", "Ordering"):
             return {"Ordering": "ordering"}.get(name, name)
@@ -229,8 +234,11 @@ class LP(_dig.P):
         if name == "Self":
             return self.selfty
         if name in ("$BUint", "$BInt"):
-            self.eat("<"), self.eat("N"), self.eat(">")
-            return {"$BUint": "buint", "$BInt": "bint"}[name]
+            self.eat("<")
+            z = self.ident()
+            self.eat(">")
+            k = {"$BUint": "buint", "$BInt": "bint"}[name]
+            return k if z == "N" else Arr(k, z)
         if name == "Option":
             self.eat("<")
             t = self.type_()
@@ -472,6 +480,13 @@ class LP(_dig.P):
             return ["blockx", self.block()]
         if v == "{":
             return ["blockx", self.block()]
+        if v == "[":                                   # [e; M]: an array of M copies of e
+            self.eat("[")
+            e = self.expr()
+            self.eat(";")
+            z = self.ident()
+            self.eat("]")
+            return ["arrep", e, z]
         if v == "match":
             return self.match_()
         if v is not None and re.match(r"^\d[\d_]*$", v):
@@ -509,10 +524,37 @@ class TVar:
         self.any = any
 
 
+class Arr:
+    """$BUint<M>, $BInt<M>, [$Digit; M] for a size M other than N (the name of a `const M: usize` generic), or of a size
+    that is still to be inferred (`$BUint::ZERO`, a call `$BUint::f(..)`: size = TVar(any=True))"""
+    def __init__(self, kind, size):
+        self.kind, self.size = kind, size
+
+
+def rs_size(z):
+    while isinstance(z, TVar) and z.ref is not None:
+        z = z.ref
+    return z
+
+
 def rs(t):
     while isinstance(t, TVar) and t.ref is not None:
         t = t.ref
+    if isinstance(t, Arr) and rs_size(t.size) == "N":
+        return t.kind                              # size N: the plain types "buint" / "bint" / "digits"
     return t
+
+
+def unify_size(x, y, what):
+    x, y = rs_size(x), rs_size(y)
+    if x is y or x == y:
+        return
+    if isinstance(x, TVar):
+        x.ref = y
+    elif isinstance(y, TVar):
+        y.ref = x
+    else:
+        die("type mismatch in %s: array of %s vs %s digits" % (what, x, y))
 
 
 INTS = ("Digit", "usize", "ExpType", "SDigit")
@@ -527,6 +569,13 @@ def unify(a, b, what):
     a, b = rs(a), rs(b)
     if a is b:
         return a
+    if (isinstance(a, Arr) or a in ARRAYS) and (isinstance(b, Arr) or b in ARRAYS):
+        ka, za = (a.kind, a.size) if isinstance(a, Arr) else (a, "N")
+        kb, zb = (b.kind, b.size) if isinstance(b, Arr) else (b, "N")
+        if ka != kb:
+            die("type mismatch in %s: %s vs %s" % (what, show(a), show(b)))
+        unify_size(za, zb, what)
+        return rs(Arr(ka, za))
     if isinstance(a, TVar):
         if isinstance(b, TVar) and b.any and not a.any:
             b.ref = a
@@ -548,6 +597,9 @@ def show(t):
     t = rs(t)
     if isinstance(t, TVar):
         return "{unknown}" if t.any else "{integer}"
+    if isinstance(t, Arr):
+        z = rs_size(t.size)
+        return "%s<%s>" % (t.kind, "?" if isinstance(z, TVar) else z)
     if is_opt(t):
         return "Option<%s>" % show(t[1])
     if isinstance(t, tuple):
@@ -571,6 +623,8 @@ def coq_ty(t):
         return "(" + " * ".join(coq_ty(x) for x in t) + ")"
     if isinstance(t, TVar) or t in INTS:
         return "Z"
+    if isinstance(t, Arr):
+        return "list Z"
     return {"bool": "bool", "buint": "list Z", "bint": "list Z", "digits": "list Z", "ordering": "comparison"}[t]
 
 
@@ -601,6 +655,25 @@ class Gen:
         self.selfty = sigs[fname]["selfty"]
         self.uses_dbg = False
         self.recursive = False
+        self.sizes = [g for g, t in sigs[fname]["generics"] if t == "usize"]   # `const M: usize` generics
+
+    def size_str(self, z, what):
+        """the Gallina term for an array size: N, a usize generic, or (final pass) an inferred one"""
+        z = rs_size(z)
+        if isinstance(z, TVar):
+            if self.final:
+                self.die("cannot determine the size of " + what)
+            return "N"
+        if z != "N" and z not in self.sizes:
+            self.die("array size %s is not N or a `const %s: usize` parameter" % (z, z))
+        return z
+
+    def kind_of(self, t):
+        """buint / bint / digits for an array type of any size, else None"""
+        t = rs(t)
+        if isinstance(t, Arr):
+            return t.kind
+        return t if t in ARRAYS else None
 
     def lookup(self, ty, name, method):
         """the translated function called `name` of the impl of type ty (method: must take self)"""
@@ -655,7 +728,11 @@ class Gen:
         if k == "bool":
             return [], "true" if e[1] else "false", "bool"
         if k == "path":
-            return self.path(e[1], env)
+            return self.path(e[1], env, e)
+        if k == "arrep":
+            p, v, t = self.ex(e[1], env)
+            unify(t, "Digit", "element of [e; %s]" % e[2])
+            return p, "(repeat %s (Z.to_nat %s))" % (v, self.size_str(e[2], "[e; %s]" % e[2])), rs(Arr("digits", e[2]))
         if k == "tuple":
             pre, vs, ts = [], [], []
             for x in e[1]:
@@ -667,10 +744,10 @@ class Gen:
         if k == "field":
             p, v, t = self.ex(e[1], env)
             t = rs(t)
-            if e[2] == "bits" and t == "bint":          # struct $BInt { bits: $BUint }: same digit list
-                return p, v, "buint"
-            if e[2] == "digits" and t == "buint":       # struct $BUint { digits: [$Digit; N] }
-                return p, v, "digits"
+            if e[2] == "bits" and self.kind_of(t) == "bint":        # struct $BInt { bits: $BUint }: same digit list
+                return p, v, rs(Arr("buint", t.size)) if isinstance(t, Arr) else "buint"
+            if e[2] == "digits" and self.kind_of(t) == "buint":     # struct $BUint { digits: [$Digit; N] }
+                return p, v, rs(Arr("digits", t.size)) if isinstance(t, Arr) else "digits"
             if not (isinstance(t, tuple) and not is_opt(t) and len(t) == 2 and e[2] in ("0", "1")):
                 self.die("unsupported field access .%s on %s" % (e[2], show(t)))
             return p, "(%s %s)" % ("fst" if e[2] == "0" else "snd", v), t[int(e[2])]
@@ -773,12 +850,17 @@ class Gen:
             e, want = e[1], "buint"
             if e[0] == "field" and e[2] == "bits":
                 e, want = e[1], "bint"
-        if e[0] == "var" and e[1] in env and rs(env[e[1]].ty) == want:
+        if e[0] == "var" and e[1] in env and self.kind_of(env[e[1]].ty) == want:
             return e[1]
         self.die("unsupported array expression " + str(e))
 
-    def path(self, segs, env):
+    def path(self, segs, env, node=None):
         s = tuple(segs)
+        if s[0] != "Self" and self.sizes and s in (("$BUint", "ZERO"), ("$BUint", "MIN"), ("$BUint", "MAX")):
+            # in a function with `const M: usize` parameters the size of `$BUint::ZERO` is inferred by Rust from its use
+            z = self.tv_any(node)
+            n = "(Z.to_nat %s)" % self.size_str(z, "$BUint::" + s[1])
+            return [], ("(UMAX w %s)" if s[1] == "MAX" else "(ZERO %s)") % n, rs(Arr("buint", z))
         if s[0] == "Self":                             # resolve Self to the type of the impl
             s = ({"buint": "$BUint", "bint": "$BInt"}[self.selfty],) + s[1:]
         if s in (("$BUint", "ZERO"), ("$BUint", "MIN")):
@@ -817,10 +899,24 @@ class Gen:
             return p, v, ty
         self.die("unsupported path " + "::".join(segs))
 
-    def call_translated(self, sig, recv, args, env):
+    def call_translated(self, sig, recv, args, env, size=None):
+        """size: None - the callee is instantiated at N;  a TVar - at a size to be inferred (`$BUint::f(..)`)"""
         name = sig["rust"]
         allargs = ([recv] if sig["self"] else []) + list(args)
         formal = ([("self", sig["selfty"])] if sig["self"] else []) + sig["params"]
+        ret = sig["ret"]
+        if size is not None:
+            def inst(t):
+                t = rs(t)
+                if t in ARRAYS:
+                    return rs(Arr(t, size))
+                if isinstance(t, Arr):
+                    self.die("call of %s at an inferred size: its signature mentions another size" % name)
+                if isinstance(t, tuple):
+                    return tuple(inst(x) for x in t)
+                return t
+            formal = [(pn, inst(pt)) for pn, pt in formal]
+            ret = inst(ret)
         if len(allargs) != len(formal):
             self.die("call of %s with %d arguments, expected %d" % (name, len(allargs), len(formal)))
         pre, vs = [], []
@@ -838,7 +934,8 @@ class Gen:
             fuel = "fuel'"
         if sig["dbg"]:
             self.uses_dbg = True
-        return pre + ["%s <- %s %sw N %s %s ;;" % (x, sig["coq"], "dbg " if sig["dbg"] else "", fuel, " ".join(vs))], x, sig["ret"]
+        nn = "N" if size is None else self.size_str(size, "the call of " + name)
+        return pre + ["%s <- %s %sw %s %s %s ;;" % (x, sig["coq"], "dbg " if sig["dbg"] else "", nn, fuel, " ".join(vs))], x, ret
 
     def mcall(self, e, env):
         _, recv, name, args = e
@@ -852,6 +949,8 @@ class Gen:
             return p1 + p2, "(ix_saturating_sub %s %s)" % (v1, v2), t
         p, v, t = self.ex(recv, env)
         t0 = rs(t)
+        if isinstance(t0, Arr):
+            self.die("method call .%s on %s (a size other than N): not supported" % (name, show(t0)))
         if t0 in ("buint", "bint"):
             sg = self.lookup(t0, name, True)
             if sg is not None:
@@ -915,11 +1014,13 @@ class Gen:
             ty = {"Self": self.selfty, "$BUint": "buint", "$BInt": "bint"}[s[0]]
             sig = self.lookup(ty, s[1], False)
             if sig is not None:
+                # `$BUint::f(..)` in a function with `const M: usize` parameters: Rust infers the size of the callee's type
+                size = self.tv_any(e) if (s[0] != "Self" and self.sizes) else None
                 if sig["self"]:
                     if not args:
                         self.die("call of Self::%s without receiver" % s[1])
-                    return self.call_translated(sig, args[0], args[1:], env)
-                return self.call_translated(sig, None, args, env)
+                    return self.call_translated(sig, args[0], args[1:], env, size)
+                return self.call_translated(sig, None, args, env, size)
         self.die("unsupported call " + "::".join(segs))
 
     def bin(self, e, env):
@@ -1156,7 +1257,8 @@ class Gen:
             rank = {"buint": 0, "bint": 0, "digits": 0, "bool": 1, "Digit": 2, "SDigit": 2, "ExpType": 3, "usize": 4}
             asg = self.assigned(body)
             state = [n for n in env if n in asg]
-            state = [n for _, _, n in sorted((rank.get(rs(env[n].ty) if not isinstance(rs(env[n].ty), (TVar, tuple)) else "", 5), k, n)
+            state = [n for _, _, n in sorted((rank.get((self.kind_of(env[n].ty) or rs(env[n].ty))
+                                                       if not isinstance(rs(env[n].ty), (TVar, tuple)) else "", 5), k, n)
                                              for k, n in enumerate(state))]
             for n in state:
                 if not env[n].mut:
@@ -1353,10 +1455,12 @@ def parse_sig(name, generics, params, ret, selfty="buint"):
            "mutref": False, "dbg": False}
     if generics:
         for g in generics.strip()[1:-1].split(","):
-            m = re.match(r"^\s*const\s+(\w+)\s*:\s*bool\s*$", g)
+            m = re.match(r"^\s*const\s+(\w+)\s*:\s*(bool|usize)\s*$", g)
             if not m:
                 die("fn %s: unsupported generic parameter %s" % (name, g.strip()))
-            sig["generics"].append((m.group(1), "bool"))
+            if m.group(1) in RESERVED:
+                die("fn %s: generic parameter name %s is reserved by the translator" % (name, m.group(1)))
+            sig["generics"].append((m.group(1), m.group(2)))
     t = LP(tokenize(params), selfty)
     first = True
     while t.peek() is not None:
